@@ -4,20 +4,22 @@ from pyvc.runner import func
 ID = "C18"
 META = {
     "assumptions": ["A-REAL", "A-PANDAS", "A-T", "A-SOLVER", "A-ENGINE"],
-    "explanation": "Four report bodies are under contract over a small time-indexed frame algebra (a Series is a function of the date index, a DataFrame is known by its columns and cells, "
+    "explanation": "Five report bodies are under contract over a small time-indexed frame algebra (a Series is a function of the date index, a DataFrame is known by its columns and cells, "
     "strategy.members / .securities are abstract sequences; contracts/reports.py), each proved at a skolem member or ticker name and a skolem date on the real body, on a fresh tree and on the first "
     "(uncached) read: Backtest.weights - every member has a column under its full name holding the member's values over the root's values (notional values for a fixed-income root) and there is no "
     "other column; Backtest.security_weights - a ticker has a column iff some security member bears that name, and the column is the summed value of the same-named securities over the root's value "
     "(loop invariant with a ghost sum over the member sequence), and the result is what gets cached; StrategyBase.positions and StrategyBase.outlays - a ticker has a column iff some security member "
     "bears that name and the column is the sum of those securities' positions / outlays. Lemmas that carry the rest of the statement from contract clauses proved elsewhere: cumulative trade quantities "
     "telescope to the recorded positions (base and inductive step), security weights plus cash fractions sum to one given update's value identity at every strategy (C01), a trade replayed at the "
-    "reported per-unit price pays the original outlay (outlay clause of C05/C07); AST-shape obligations that Result wraps each strategy's price index and transaction list. herfindahl_index, turnover, "
+    "reported per-unit price pays the original outlay (outlay clause of C05/C07); AST-shape obligations that Result wraps each strategy's price index and transaction list. Backtest.herfindahl_index is under contract against the contract of security_weights "
+    "(callee used by contract, not by body): the result is a sum along each row, over exactly the columns of the security weights, of the squared weight (the sum over the unbounded column set is a structured "
+    "value of the frame algebra; the obligation is pointwise on its summand at a skolem column and date). turnover, "
     "get_transactions (unstack / diff / swaplevel reshaping), Result prices and the ReplayTransactions round trip are not under contract: every stated formula is recomputed from the node histories of "
     "generated finished backtests by the bounded stand-in c18_reports on the real code (flat and nested trees, shared tickers, runs with no trades, shorts, bid/offer on or off, multipliers, security classes).",
 }
 MANIFEST_ENTRY = {
     "level_text": "Deductive proof, for all trees, names and dates, of the component-weight, security-weight, position and outlay reports (first read on a fresh tree) plus lemmas for cumulation, "
-    "weights-sum-to-one and the replay price; the Herfindahl index, turnover, the transaction list and the replay round trip are checked only by a bounded recomputation on generated backtests, labelled bounded.",
+    "weights-sum-to-one and the replay price, and of the Herfindahl index against the security-weights contract; turnover, the transaction list and the replay round trip are checked only by a bounded recomputation on generated backtests, labelled bounded.",
     "level_note": "A-PANDAS: DataFrame(dict of Series) has one column per key, frame[name] = s / += s set or add to one column, .div(series, axis=0) divides every cell by the series at the same date; "
     "the history accessors are taken to return the node's own series on a fresh tree (C08 proves that); the cached branch of weights / security_weights is excluded by precondition; members / securities "
     "are abstract sequences (that members is the node plus its descendants is C19, bounded there). The bounded stand-in found three genuine defects (execution price with a multiplier, shared-ticker spread, "
@@ -64,6 +66,7 @@ def _tasks_core(tier, seed):
         func("bt.backtest.Backtest.weights", variant="mv"), func("bt.backtest.Backtest.weights", variant="fi"),
         func("bt.backtest.Backtest.security_weights", variant="mv"), func("bt.backtest.Backtest.security_weights", variant="fi"),
         func("bt.core.StrategyBase.positions"), func("bt.core.StrategyBase.outlays"),
+        func("bt.backtest.Backtest.herfindahl_index"),
         dict(kind="custom", module="props.lemmas", fn="c18_report_lemmas"),
         dict(kind="custom", module="props.lemmas", fn="c18_static"),
         dict(kind="custom", module="props.bounded", fn="run_script", script="c18_reports", seed=seed, n=40 if tier == "quick" else 600, props=["C18"]),
